@@ -25,6 +25,7 @@ func init() {
 			"(R15.5) the errno mapping covers every experimental/sys.Errno constant; (R15.7) after an entry was removed from the descriptor table no failing return is feasible (callee failure conditions are excluded by dominating checks). " +
 			"NOT decided: absence of every Go run-time error in the 46 functions (nil dereference, division, type assertion).",
 		Rules: []core.Rule{
+			{ID: "R15.8", Template: "error discipline", Text: "the result of every guest-memory write of a WASI function is checked (genuine defects found and fixed: sock_accept, sock_recv, sock_send)", Min: 1},
 			{ID: "R15.1", Template: "T-WHOCALLS", Text: "no direct access to MemoryInstance.Buffer in imports/", Min: 1},
 			{ID: "R15.2", Template: "error discipline", Text: "uses of a Memory.Read result are dominated by the ok branch", Min: 10},
 			{ID: "R15.3", Template: "T-WIDTH", Text: "wrap-prone 32-bit length arithmetic on guest values is guarded or consistently wrapped", Min: 3},
@@ -34,10 +35,11 @@ func init() {
 		},
 		Run: runC15,
 		Controls: []core.Control{
+			{Name: "sock-accept-result-unchecked", File: "imports/wasi_snapshot_preview1/sock.go", Old: "\t\tif !mem.WriteUint32Le(resultFd, uint32(connFD)) {\n\t\t\t// The guest cannot learn the descriptor: do not leave the connection in its table.\n\t\t\t_ = fsc.CloseFile(connFD)\n\t\t\treturn sys.EFAULT\n\t\t}\n", New: "\t\tmem.WriteUint32Le(resultFd, uint32(connFD))\n", Rule: "R15.8", Substr: "sockAcceptFn"},
 			{Name: "direct-buffer-access", File: "imports/wasi_snapshot_preview1/random.go", Old: "\trandomBytes, ok := mod.Memory().Read(buf, bufLen)\n\tif !ok { // out-of-range\n\t\treturn sys.EFAULT\n\t}\n", New: "\tmemBuf := mod.(*wasm.ModuleInstance).MemoryInstance.Buffer\n\tok := uint64(buf)+uint64(bufLen) <= uint64(len(memBuf))\n\tif !ok { // out-of-range\n\t\treturn sys.EFAULT\n\t}\n\trandomBytes := memBuf[buf : buf+bufLen]\n", Rule: "R15.1", Substr: "Buffer"},
 			{Name: "use-before-ok", File: "imports/wasi_snapshot_preview1/fs.go", Old: "\tbuf, ok := mod.Memory().Read(resultFdstat, 24)\n\tif !ok {\n\t\treturn experimentalsys.EFAULT\n\t}\n", New: "\tbuf, ok := mod.Memory().Read(resultFdstat, 24)\n\tbuf[0] = 0\n\tif !ok {\n\t\treturn experimentalsys.EFAULT\n\t}\n", Rule: "R15.2", Substr: "fdFdstatGetFn"},
 			{Name: "poll-guard-removed", File: "imports/wasi_snapshot_preview1/poll.go", Old: "\tif nsubscriptions > math.MaxUint32/48 {\n\t\treturn sys.EFAULT\n\t}\n", New: "\t_ = math.MaxUint32\n", Rule: "R15.3", Substr: "pollOneoffFn"},
-			{Name: "writev-index-loop", File: "imports/wasi_snapshot_preview1/fs.go", Old: "\tfor iovsPos := uint32(0); iovsPos < iovsStop; iovsPos += 8 {\n\t\toffset := le.Uint32(iovsBuf[iovsPos:])\n\t\tl := le.Uint32(iovsBuf[iovsPos+4:])\n\n\t\tb, ok := mem.Read(offset, l)\n\t\tif !ok {\n\t\t\treturn 0, experimentalsys.EFAULT\n\t\t}\n\t\tn, errno := writer(b)", New: "\tfor i := uint32(0); i < iovsCount; i++ {\n\t\toffset := le.Uint32(iovsBuf[i*8:])\n\t\tl := le.Uint32(iovsBuf[i*8+4:])\n\n\t\tb, ok := mem.Read(offset, l)\n\t\tif !ok {\n\t\t\treturn 0, experimentalsys.EFAULT\n\t\t}\n\t\tn, errno := writer(b)", Rule: "R15.3", Substr: "writev"},
+			{Name: "writev-index-loop", File: "imports/wasi_snapshot_preview1/fs.go", Old: "\tfor iovsPos := uint32(0); iovsPos < iovsStop; iovsPos += 8 {\n\t\toffset := le.Uint32(iovsBuf[iovsPos:])\n\t\tl := le.Uint32(iovsBuf[iovsPos+4:])\n\n\t\tb, ok := mem.Read(offset, l)\n\t\tif !ok {\n\t\t\treturn 0, experimentalsys.EFAULT\n\t\t}\n\t\tn, errno := writer(b)", New: "\tfor i := uint32(0); i < iovsCount; i++ {\n\t\toffset := le.Uint32(iovsBuf[i*8:])\n\t\tl := le.Uint32(iovsBuf[i*8+4:])\n\n\t\tb, ok := mem.Read(offset, l)\n\t\tif !ok {\n\t\t\treturn 0, experimentalsys.EFAULT\n\t\t}\n\t\tn, errno := writer(b)", Rule: "R15.3", Substr: "writev", Old2: "\tvar nwritten uint32\n\tif iovsCount > math.MaxUint32>>3 { // iovsCount * 8 would wrap around: such an array fits in no memory.\n\t\treturn 0, experimentalsys.EFAULT\n\t}\n", New2: "\tvar nwritten uint32\n"},
 			{Name: "dirent-cache-reserves-guest-count", File: "internal/sys/fs.go", Old: "\t\t// Try to read more, which could fail.\n\t\tif dirents, errno = d.f.Readdir(countToRead); errno != 0 {", New: "\t\td.dirents = append(make([]sys.Dirent, 0, len(d.dirents)+countToRead), d.dirents...)\n\t\t// Try to read more, which could fail.\n\t\tif dirents, errno = d.f.Readdir(countToRead); errno != 0 {", Rule: "R15.4", Substr: "DirentCache"},
 			{Name: "random-allocates-first", File: "imports/wasi_snapshot_preview1/random.go", Old: "\trandomBytes, ok := mod.Memory().Read(buf, bufLen)\n\tif !ok { // out-of-range\n\t\treturn sys.EFAULT\n\t}\n", New: "\ttmp := make([]byte, bufLen)\n\t_ = tmp\n\trandomBytes, ok := mod.Memory().Read(buf, bufLen)\n\tif !ok { // out-of-range\n\t\treturn sys.EFAULT\n\t}\n", Rule: "R15.4", Substr: "randomGetFn"},
 			{Name: "errno-unmapped", File: "internal/wasip1/errno.go", Old: "\tcase sys.EROFS:\n\t\treturn ErrnoRofs\n", New: "", Rule: "R15.5", Substr: "ToErrno"},
@@ -96,6 +98,7 @@ func guestDerived(v ssa.Value, depth int, seen map[ssa.Value]bool) bool {
 }
 
 func runC15(c *core.Ctx) {
+	checkWasiOutputsChecked(c)
 	c.SSA()
 	wasiRel := "imports/wasi_snapshot_preview1"
 	fns := moduleFns(c, wasiRel)
